@@ -48,6 +48,7 @@ func Run(k *report.Check) {
 			starts = append(starts, b-3+d)
 		}
 	}
+	k.Parts(5)
 	k.Explore("crash-after-each-storage-op/memory", mc.Config{}, seqParams{starts: starts, n: k.Pick(3, 4)}, seqBody)
 	k.Explore("crash-after-each-storage-op/local-directory", mc.Config{Workers: 4}, seqParams{starts: []uint64{0, 1, 2, 3, 61, 62, 63, 64, 4094, 1<<32 - 2}, n: 3, real: true}, seqBody)
 	k.Explore("restart/any-three-snapshot-files", mc.Config{}, nil, subsetBody)
